@@ -79,6 +79,68 @@ impl<K: SimKernel<D>, const D: usize> Monitor<K, D> for C10 {
             }
             queries.push(cen);
         }
+        // (start cell x target cell) sweep on small meshes: the centroid of every cell located from
+        // every live cell as hint. The walk's path - and whether it circles a ring of cells before
+        // its revisit check sends it to the scan - depends on exactly this pair.
+        if post.cells.len() <= 16 && rng.chance(1, 3) {
+            let coords = post.key_to_coords();
+            for target in &post.cells {
+                let mut cen = vec![0.0; D];
+                let mut ok = true;
+                for k in &target.verts {
+                    match coords.get(k) {
+                        Some(p) => {
+                            for i in 0..D {
+                                cen[i] += p[i] / (D as f64 + 1.0);
+                            }
+                        }
+                        None => ok = false,
+                    }
+                }
+                if !ok || cen.iter().any(|x| !x.is_finite()) {
+                    continue;
+                }
+                let mut arr = [0.0f64; D];
+                arr.copy_from_slice(&cen);
+                let point = Point::new(arr);
+                for start in &post.cells {
+                    let r = std::panic::catch_unwind(std::panic::AssertUnwindSafe(|| locate_with_stats(dt.tds(), &kernel, &point, Some(ckey(start.key)))));
+                    ctx.stats.executions += 1;
+                    ctx.stats.evaluations += 1;
+                    let Ok(r) = r else {
+                        push_violation(ctx.violations, violation("C10", "locate-panicked", ctx.step, "sweep".into(), format!("locate panicked for q={cen:?}")));
+                        continue;
+                    };
+                    match r {
+                        Ok((LocateResult::InsideCell(c) | LocateResult::OnFacet(c, _) | LocateResult::OnEdge(c), st)) => {
+                            if let Some(fb) = &st.fallback {
+                                ctx.stats.bump(&format!("c10.fallback.{:?}", fb.reason));
+                            }
+                            let key = c.data().as_ffi();
+                            match geom::in_cell(post, key, &cen) {
+                                Some((false, true)) => push_violation(
+                                    ctx.violations,
+                                    violation("C10", "cell-does-not-contain-point", ctx.step, format!("sweep|hint=live|budget=default|after={kind}"), format!("locate from start cell {:#x} returned cell {key:#x} for the centroid {cen:?} of cell {:#x}, which is exactly outside its closed simplex", start.key, target.key)),
+                                ),
+                                Some((_, false)) => ctx.stats.abstained += 1,
+                                _ => {}
+                            }
+                        }
+                        Ok((LocateResult::Outside, _)) => {
+                            let pos = geom::hull_position(post, &cen);
+                            if pos.decidable && pos.inside_or_on() {
+                                push_violation(
+                                    ctx.violations,
+                                    violation("C10", "outside-but-inside-hull", ctx.step, format!("sweep|hint=live|budget=default|after={kind}"), format!("locate from start cell {:#x} says Outside for the centroid {cen:?} of cell {:#x}", start.key, target.key)),
+                                );
+                            }
+                        }
+                        _ => {}
+                    }
+                }
+            }
+            ctx.stats.bump("c10.start_target_sweeps");
+        }
         for q in queries {
             if q.iter().any(|x| !x.is_finite()) {
                 continue;
@@ -114,6 +176,11 @@ impl<K: SimKernel<D>, const D: usize> Monitor<K, D> for C10 {
                         push_violation(ctx.violations, violation("C10", "locate-panicked", ctx.step, format!("hint={hname}|budget={b:?}"), format!("locate panicked for q={q:?}")));
                         continue;
                     };
+                    if let Ok((_, st)) = &rs
+                        && let Some(fb) = &st.fallback
+                    {
+                        ctx.stats.bump(&format!("c10.fallback.{:?}", fb.reason));
+                    }
                     let label = format!("hint={hname}|budget={}", b.map_or("default".to_string(), |v| v.to_string()));
                     classes.push((label.clone(), class_of(&r)));
                     // stats variant returns the same result
